@@ -129,6 +129,9 @@ pub fn replay(case: &Case) -> Result<Verdict, String> {
     let st = parse_ty(case.get("ty")?)?;
     let n = case.usize("n")?;
     if let Some(kind) = case.opt("kind") {
+        if kind == "iterscript" {
+            return super::iter::replay("C02", case);
+        }
         if kind == "tryfrom" {
             let m = case.usize("m")?;
             let t = case.words("t")?;
@@ -869,4 +872,6 @@ pub fn run(run: &Run) {
             for_type!(st, n, pl(run, st, n));
         }
     }
+    // every item any iterator call yields is a table of the public API too
+    super::iter::run_sections(run, "C02", if run.thorough() { 10 } else { 8 });
 }
